@@ -67,6 +67,13 @@ mut("throttle-past-to-min", ["C16"], "plugin/action/throttle/buckets.go", "\tif 
 mut("es-split-middle-off", ["C19"], "plugin/output/elasticsearch/elasticsearch.go", "\t\t\tstatusCode, err = p.sendSplit(middle, right, begin, data)\n", "\t\t\tstatusCode, err = p.sendSplit(middle+1, right, begin, data)\n")
 mut("splunk-root-not-reset", ["C19"], "plugin/output/splunk/splunk.go", "\t\toutBuf = root.Encode(outBuf)\n\t\t_ = root.DecodeString(\"{}\")\n", "\t\toutBuf = root.Encode(outBuf)\n")
 mut("kafka-out-shared-buffer", ["C19"], "plugin/output/kafka/kafka.go", "\t\toutBuf, start = event.Encode(outBuf)\n", "\t\toutBuf, start = event.Encode(outBuf[:0])\n")
+mut("loki-shares-event-nodes", ["C19"], "plugin/output/loki/loki.go", "\t\tdataArr.AddElementNoAlloc(root).MutateToJSON(root, event.Root.EncodeToString())\n", "\t\tdataArr.AddElementNoAlloc(root).MutateToNode(event.Root.Node)\n")
+mut("gelf-formats-in-place", ["C19"], "plugin/output/gelf/gelf.go", "\t\tencodeBuf = p.formatEvent(encodeBuf, formatted)\n\t\toutBuf, _ = formatted.Encode(outBuf)\n", "\t\tencodeBuf = p.formatEvent(encodeBuf, event)\n\t\toutBuf, _ = event.Encode(outBuf)\n")
+mut("gelf-maintenance-nil-client", ["C19"], "plugin/output/gelf/gelf.go", "\tif data.gelf == nil {\n\t\t// not connected: the last connect or send failed\n\t\treturn\n\t}\n", "")
+mut("gelf-newline-terminator", ["C19"], "plugin/output/gelf/gelf.go", "\t\toutBuf = append(outBuf, byte(0))\n", "\t\toutBuf = append(outBuf, byte('\\n'))\n")
+mut("gelf-level-off", ["C19"], "plugin/output/gelf/gelf.go", "\t\t\tparsedLevel = pipeline.LevelInformational\n", "\t\t\tparsedLevel = pipeline.LevelDebug\n")
+mut("loki-empty-line-skipped", ["C19"], "plugin/output/loki/loki.go", "\t\tvalues = append(values, logLine)\n", "\t\tif logMsg != \"\" {\n\t\t\tvalues = append(values, logLine)\n\t\t}\n")
+mut("file-seal-before-rename-swap", ["C19"], "plugin/output/file/file.go", "\tp.rename(newFileName)\n\toldFile := p.file\n", "\toldFile := p.file\n\t_ = oldFile.Truncate(info.Size())\n\tp.rename(newFileName)\n")
 # ---- C20
 mut("cut-one-byte-short", ["C20"], "pipeline/pipeline.go", "\t\tbytes = bytes[:p.settings.MaxEventSize]\n", "\t\tbytes = bytes[:p.settings.MaxEventSize-1]\n")
 mut("size-limit-ge", ["C20"], "pipeline/pipeline.go", "length > p.settings.MaxEventSize {", "length >= p.settings.MaxEventSize {")
